@@ -1,0 +1,36 @@
+#
+#   YaLafi: instrumentation for external verification (not used in normal operation)
+#
+#   Active only if the environment variable YALAFI_VERIF is set to 1 and
+#   YALAFI_VERIF_TRACE names a file: then one JSON line is appended for
+#   every call of Parser.remove_pure_action_lines() with the token list it
+#   received and the token list it returned.
+#
+
+import json
+import os
+
+ON = os.environ.get('YALAFI_VERIF') == '1' and bool(
+                                    os.environ.get('YALAFI_VERIF_TRACE'))
+
+def tok2dict(t):
+    d = {'k': type(t).__name__, 'p': t.pos, 't': t.txt,
+                'f': bool(getattr(t, 'pos_fix', False))}
+    return d
+
+def emit(event, **fields):
+    if not ON:
+        return
+    fields['event'] = event
+    with open(os.environ['YALAFI_VERIF_TRACE'], 'a', encoding='utf-8') as f:
+        f.write(json.dumps(fields) + '\n')
+
+#   wrap the bound method remove_pure_action_lines of a parser object
+#
+def wrap_rpal(method):
+    def wrapped(tokens):
+        inp = [tok2dict(t) for t in tokens]
+        out = method(tokens)
+        emit('rpal', inp=inp, out=[tok2dict(t) for t in out])
+        return out
+    return wrapped
